@@ -38,6 +38,9 @@ import (
 
 func init() { windowChecks = append(windowChecks, fairCheck) }
 
+// time given to invocations synthesised by walk(create)
+var createNow int64
+
 var (
 	fairDrv   *hx.Driver
 	fairCount = map[string]int{}
@@ -162,7 +165,8 @@ func (n *fnode) child(k int) *fnode {
 }
 
 // walk visits the node at every prefix of path (including the root), creating empty
-// invocations where create is set (getOrCreateInvocation).
+// invocations where create is set (getOrCreateInvocation: a new invocation starts with
+// lastOperationStarted = lastOperationCompletion = now, see createNow).
 func (n *fnode) walk(path []int, create bool, f func(*fnode)) {
 	cur := n
 	f(cur)
@@ -172,7 +176,7 @@ func (n *fnode) walk(path []int, create bool, f func(*fnode)) {
 			if !create {
 				return
 			}
-			next = &fnode{key: k}
+			next = &fnode{key: k, started: createNow, completed: createNow}
 			cur.kids = append(cur.kids, next)
 		}
 		cur = next
@@ -348,6 +352,9 @@ func fairCheck(r *run, primary string, before, after *scheduler.VerifState, even
 		}
 	}
 	pf := strings.Fields(primary)
+	if len(pf) > 0 && pf[0] == "exec" && len(picks) == 0 && len(handoffs) == 0 {
+		fairDynEnqueue(r, before, after)
+	}
 	for _, g := range handoffs {
 		if r.fail == nil {
 			fairHandoff(r, pf, before, after, g.pq, g.sc, g.ht, len(handoffs))
@@ -585,6 +592,29 @@ func fairPick(r *run, pf []string, before, after *scheduler.VerifState, pq, sc i
 			r.pendf("mismatch", "C04", "Fair correspondence: pickFromQueue = assignNextQueuedTask", "%s, the model's walk over the heap roots yields %s; snapshot: %s", desc, kv["code"], req)
 		}
 	}
+	// the tree afterwards: incrementExecutingWorkersCount, then removeQueuedFromInvocation, for a task with one operation
+	if !completion && len(ta.Operations) == 1 && (wb == nil || wb.CurrentTaskOperation == "") {
+		p := pickedPaths[0]
+		idx := -1
+		root.walk(p, false, func(*fnode) {})
+		cur := root
+		for _, k := range p {
+			if cur = cur.child(k); cur == nil {
+				break
+			}
+		}
+		if cur != nil {
+			for i, o := range cur.ops {
+				if pickedIDs[strconv.Itoa(o.id)] {
+					idx = i
+				}
+			}
+		}
+		if idx >= 0 {
+			upd := fmt.Sprintf("inc %s %d deq %s %d", intsSp(p), now, intsSp(p), idx)
+			fairDynCompare(r, c, "pick", upd, 2, root, &qa.RootInvocation)
+		}
+	}
 	// stickiness bookkeeping: levels below `retained` keep their starting time, the others restart now
 	for i, t := range wa.StickinessStartingTimes {
 		want := now
@@ -670,6 +700,7 @@ func fairHandoff(r *run, pf []string, before, after *scheduler.VerifState, pq, s
 		}
 	}
 	root := c.build(&qb.RootInvocation)
+	createNow = now
 	for _, p := range paths {
 		root.walk(p, true, func(*fnode) {})
 	}
@@ -801,3 +832,133 @@ func fairFinish(res *hx.Result) {
 }
 
 var fairDebug = os.Getenv("FAIR_DEBUG") != ""
+
+// ---- differential run of the dynamic model (Model/FairDyn.lean, container/heap layout) ---------
+
+type dynNode struct{ prio, ops, q, pk, pw, e, s, c string }
+
+func (c *fairCtx) dynMap(vi *scheduler.VerifInvocation, m map[string]dynNode) {
+	n := c.build(vi)
+	ids := make([]int, len(n.ops))
+	for i, o := range n.ops {
+		ids[i] = o.id
+	}
+	csv := func(l []int) string {
+		if len(l) == 0 {
+			return ""
+		}
+		return strings.Trim(strings.Join(strings.Fields(fmt.Sprint(l)), ","), "[]")
+	}
+	p := c.path(vi.Keys)
+	m[csv(p)] = dynNode{strconv.Itoa(n.prio), csv(ids), csv(n.queued), csv(n.parkedKids), csv(n.parked),
+		strconv.Itoa(n.exec), strconv.FormatInt(n.started, 10), strconv.FormatInt(n.completed, 10)}
+	for i := range vi.Children {
+		c.dynMap(&vi.Children[i], m)
+	}
+}
+
+func parseDyn(out string) map[string]dynNode {
+	m := map[string]dynNode{}
+	for _, e := range strings.Fields(out) {
+		kv := map[string]string{}
+		for _, f := range strings.Split(e, ";") {
+			if p := strings.SplitN(f, "=", 2); len(p) == 2 {
+				kv[p[0]] = p[1]
+			}
+		}
+		m[kv["p"]] = dynNode{kv["prio"], kv["ops"], kv["q"], kv["pk"], kv["pw"], kv["e"], kv["s"], kv["c"]}
+	}
+	return m
+}
+
+// fairDynCompare asks the model for the tree after the updates and compares every invocation of the real
+// tree afterwards with it: order of queuedOperations, queuedChildren and idleSynchronizingWorkersChildren
+// (heap layout), cached priority, executing count, time stamps.  Invocations that exist only in the model's
+// result must be empty (removeIfEmpty is not part of the model).
+func fairDynCompare(r *run, c *fairCtx, what, updates string, nUpdates int, root *fnode, afterRoot *scheduler.VerifInvocation) {
+	var b strings.Builder
+	fmt.Fprintf(&b, "apply U %d %s T", nUpdates, updates)
+	root.serialise(&b)
+	req := b.String()
+	out, err := fairDrv.Ask(req)
+	if err != nil || out == "bad-op" {
+		r.failf("mismatch", "C04", "Fair correspondence (driver)", "drv_fair: %v %s on %q", err, out, req)
+		return
+	}
+	model := parseDyn(out)
+	real := map[string]dynNode{}
+	c.dynMap(afterRoot, real)
+	fairCount["dyn-"+what+"-checked"]++
+	for p, rn := range real {
+		mn, ok := model[p]
+		if !ok {
+			fairCount["dyn-"+what+"-skipped-node-sets-differ"]++
+			return
+		}
+		if mn != rn {
+			r.pendf("mismatch", "C04", "Fair correspondence: "+what+" on the tree = Model/FairDyn.lean (heap layout after the code's heapPushOrFix/heapRemoveOrFix/heapMaybeFix calls, cached priorities)",
+				"invocation %q after %s: real %+v, model %+v; request: %s", p, what, rn, mn, req)
+			return
+		}
+	}
+	for p, mn := range model {
+		if _, ok := real[p]; !ok && (mn.ops != "" || mn.q != "" || mn.pw != "" || mn.pk != "") {
+			r.pendf("mismatch", "C04", "Fair correspondence: "+what+" on the tree = Model/FairDyn.lean", "invocation %q holds %+v in the model but does not exist afterwards; request: %s", p, mn, req)
+			return
+		}
+	}
+}
+
+// fairDynEnqueue: an Execute whose only effect on the trees is that one operation was queued.
+func fairDynEnqueue(r *run, before, after *scheduler.VerifState) {
+	if cleanupDue(before, after.Now) {
+		return
+	}
+	var target *scheduler.VerifSizeClassQueue
+	var targetBefore *scheduler.VerifSizeClassQueue
+	newOp := ""
+	for i := range after.SizeClassQueues {
+		qa := &after.SizeClassQueues[i]
+		qb := r.w.findQueue(before, r.w.pqIDFor(qa.InstanceNamePrefix, qa.Platform), int(qa.SizeClass))
+		if qb == nil {
+			return
+		}
+		c := newFairCtx(r.w, before)
+		sb, sa := map[string]bool{}, map[string]bool{}
+		collect(&qb.RootInvocation, c, sb, map[string]int{})
+		collect(&qa.RootInvocation, c, sa, map[string]int{})
+		for name := range sb {
+			if !sa[name] {
+				return
+			}
+		}
+		for name := range sa {
+			if !sb[name] {
+				if newOp != "" {
+					return
+				}
+				newOp, target, targetBefore = name, qa, qb
+			}
+		}
+	}
+	if newOp == "" {
+		return
+	}
+	ta := findTaskByOp(after, newOp)
+	if ta == nil {
+		return
+	}
+	c := newFairCtx(r.w, after) // operation data of the new operation are only in the state afterwards
+	var path []int
+	for _, o := range ta.Operations {
+		if o.Name == newOp {
+			path = c.path(o.InvocationKeys)
+		}
+	}
+	root := c.build(&targetBefore.RootInvocation)
+	createNow = after.Now.Unix()
+	root.walk(path, true, func(*fnode) {})
+	o := c.opInfo[newOp]
+	upd := fmt.Sprintf("enq %s %d %d %d %d", intsSp(path), o.id, o.prio, o.dur, o.ts)
+	fairDynCompare(r, c, "enqueue", upd, 1, root, &target.RootInvocation)
+}
